@@ -414,6 +414,19 @@ def c13(run):
             if int(f[2]) != exp_line:
                 run.fail({'text': text, 'fault': line, 'line': exp_line, 'answer': r[:200]},
                          'the %s fault %r is on line %d but the error names line %s' % (cat, line, exp_line, f[2]))
+    # an odd FIRST line (what other tools treat specially: shebang, byte order mark, editor modelines, comment styles of other
+    # languages, front matter), then an ordinary program with a fault further down: rejected where the model says (line 1
+    # unless the first line happens to be valid Rockstar)
+    firsts = ['#!/usr/bin/env rrss', '#!', '#!say 1', '# comment', '// comment', '-- comment', '/* c */', ';; c', '%YAML 1.2', '---',
+              '<?xml version="1.0"?>', '\ufeff', '\ufeffsay 1', '(a comment)', '(a comment', '"""', 'vim: set ft=rock:', '\x0c', '\r', ' ', '']
+    fl = []
+    for f0 in firsts:
+        for body in ['say 1\nput\nsay 2\n', 'say 1\n\nif x\nsay 2\n\nsay 3 say 4\n', '\n\nx is\n']:
+            fl.append(f0 + '\n' + body)
+    run.tie(['parse ' + hx(t) for t in fl], proj=lambda r: ('err ' + r.split(' ')[2]) if r.startswith('err') else r.split(' ')[0], functional=True,
+            desc=lambda i: {'text': fl[i], 'section': 'odd first line'})
+    for t in fl:
+        run.case(('first-line', t), True, kind='odd-first-line')
     # tokens of every class and byte length as the faulty line (whether each IS a fault is the model's call; the line must
     # agree), and a fault after one construct repeated N times (model-free: the line is the number of line breaks + 1)
     st = ['say 1\n\n' + t + '\nsay 2\n' for t in texts.sized_tokens(run.tier == 'quick')]
